@@ -189,7 +189,7 @@ theorem chkMaxTypes_iff (c : Cred) : chkMaxTypes.run c = .pass ↔ c.types.lengt
   simp [chkMaxTypes, guard_pass_iff]
 
 theorem chkNotRevoked_iff (E : Env) (c : Cred) :
-    (chkNotRevoked E).run c = .pass ↔ ∀ id, c.id = some id → E.revoked id = false := by
+    (chkNotRevoked E).run c = .pass ↔ ∀ id, c.id = some id → (E.storeFails = false ∧ E.revoked id = false) := by
   unfold chkNotRevoked
   cases h : c.id with
   | none => simp [h]
@@ -242,7 +242,7 @@ theorem signatureChecks_ok_iff {cfg : Cfg} {P : Crypto} {E : Env} {at_ : Option 
 
 /-- the conjunction of all checks of `Verify` -/
 def VcAccept (cfg : Cfg) (P : Crypto) (E : Env) (au checkSig : Bool) (at_ : Option Time) (c : Cred) : Prop :=
-  validate E c = .pass ∧ c.types.length ≤ 2 ∧ (∀ id, c.id = some id → E.revoked id = false) ∧
+  validate E c = .pass ∧ c.types.length ≤ 2 ∧ (∀ id, c.id = some id → (E.storeFails = false ∧ E.revoked id = false)) ∧
   statusVerdict E c ≠ .revoked ∧
   (au = true ∨ ∀ t ∈ c.types, t ≠ vcType → E.trusted t c.issuer = true) ∧
   (c.issued ≤ atOf E at_ + cfg.maxSkew ∧ ∀ e, c.expires = some e → atOf E at_ - cfg.maxSkew ≤ e) ∧
@@ -250,7 +250,7 @@ def VcAccept (cfg : Cfg) (P : Crypto) (E : Env) (au checkSig : Bool) (at_ : Opti
 
 theorem preChecks_ok_iff {cfg : Cfg} {E : Env} {au : Bool} {at_ : Option Time} {c : Cred} :
     runChecks (preChecks cfg E au at_) c = .ok () ↔
-      (validate E c = .pass ∧ c.types.length ≤ 2 ∧ (∀ id, c.id = some id → E.revoked id = false) ∧
+      (validate E c = .pass ∧ c.types.length ≤ 2 ∧ (∀ id, c.id = some id → (E.storeFails = false ∧ E.revoked id = false)) ∧
        statusVerdict E c ≠ .revoked ∧
        (au = true ∨ ∀ t ∈ c.types, t ≠ vcType → E.trusted t c.issuer = true) ∧
        (c.issued ≤ atOf E at_ + cfg.maxSkew ∧ ∀ e, c.expires = some e → atOf E at_ - cfg.maxSkew ≤ e)) := by
